@@ -318,3 +318,24 @@ PROPS["C11"] = dict(
                "database's own dirty-node cache is exercised but not modelled. Fixed defect: the head pointer used to be written after the block batch.",
     assumptions=["batch commits are atomic and ordered with direct writes", "state tries are content addressed: an extra trie node never hurts"],
 )
+
+PROPS["C09"] = dict(
+    lean_modules=["QuaiVerif.Props.C09"],
+    areas=[dict(name="c09", n_quick=4, n_thorough=60, seeds_thorough=3, n_search=12, timeout=3000)],
+    facts=["verify_header_compares"],
+    rule="a case is one 30-block history of the real zone node (see C06) with miner-chosen block times of 0-3 s (10%: up to 39 s) and zone / region blocks; for "
+         "every block the model's CalcDifficulty, gas / state limit ramp, TotalLogEntropy, DeltaLogEntropy and CalcOrder are evaluated on the real header "
+         "fields and compared with the real functions, and the chain accumulator of the model must reproduce TotalLogEntropy block after block; the block "
+         "must pass VerifyHeader, its entropy must exceed its parent's, order / entropy must be identical on 3 repeated calls and on a second node that "
+         "computes them cold; before 40% of the blocks 4 single-field deviations (number, time, difficulty, limits, base fee, prime terminus, expansion, "
+         "entropy fields, location, lock byte, data, gas used) of the valid block are offered to VerifyHeader and must be refused",
+    level_text="'accumulated entropy grows by exactly the block's own entropy whatever its order' (invariant over chains of zone / region / prime blocks), "
+               "'it strictly increases along every chain', 'a valid seal at difficulty >= 2 has positive entropy', difficulty floor / steady state / "
+               "monotonicity in block time and the limit ramp are Lean theorems; the regenerated list of fields compared in verifyHeader must cover every "
+               "derived field; all formulas are run against the real functions on real headers.",
+    level_note="PARTIAL: base fee (QiToQuai of the fee floor, C20's model), share-difficulty fields after the KawPow fork (CalculatePowDiffAndCount, share "
+               "targets; core/headerchain_test.go covers their tables) and workshare entropy with uncles are not modelled - the chains here are pre-fork and "
+               "uncle-free. The region / prime parts of the header are supplied by the harness playing those chains; the zone cannot check them. The "
+               "mantissa of the binary logarithm (modernc mathutil) is opaque: entropy values are inputs of the model.",
+    assumptions=["the dominant chains record their own running totals correctly (parentEntropy / parentDeltaEntropy of region and prime context)"],
+)
